@@ -122,6 +122,12 @@ func init() {
 	}
 	// pkg/slip10/elliptic (stage 13): NewPrivateKey / PrivateKey.Shift / PublicKey.Shift answered by the generated code
 	mirrorOps["slip10.shift"] = "gen.slip10.shift"
+	// pkg/pow/v2 (stage 14): toInt, stateToInt, sufficientTrailingZeros / targetHash answered by the generated code
+	for _, op := range []string{"pow2.toint", "pow2.statetoint", "pow2.suff"} {
+		op := op
+		mirrorOps[op] = "gen." + op
+		execs["gen."+op] = func(a []string) string { return execs[op](a) }
+	}
 	execs["gen.slip10.shift"] = func(a []string) string { return execs["slip10.shift"](a) }
 	// pkg/bip39 (stage 12): EntropyToMnemonic / MnemonicToEntropy answered by the generated code, same reply format
 	for _, op := range []string{"bip39.enc", "bip39.dec"} {
